@@ -419,6 +419,28 @@ impl PoolImpl {
     }
 }
 
+/// Read-only accessors for the external verification harness.
+#[cfg(alpenglow_verif)]
+impl PoolImpl {
+    /// Returns the first slot whose state has not been pruned.
+    #[must_use]
+    pub fn verif_first_unpruned_slot(&self) -> Slot {
+        self.first_unpruned_slot()
+    }
+
+    /// Returns the slots for which per-slot vote/certificate state is retained.
+    #[must_use]
+    pub fn verif_retained_slots(&self) -> Vec<Slot> {
+        self.slot_states.keys().copied().collect()
+    }
+
+    /// Returns the number of safe-to-notar blocks waiting for a parent certificate.
+    #[must_use]
+    pub fn verif_waiting_parent_certs(&self) -> usize {
+        self.s2n_waiting_parent_cert.len()
+    }
+}
+
 #[async_trait]
 impl Pool for PoolImpl {
     /// Adds a new certificate to the pool.
